@@ -183,6 +183,12 @@ class TaintAnalysis:
             if self.run(tb, tp, nchain):
                 res = True
         # direct call of a closure value / Fn trait on a local closure handled through c.target above.
+        from .effects import OWN_PRIMS
+        if n in OWN_PRIMS:
+            for i, a in enumerate(t["args"]):
+                if args_t[i]:
+                    found.append((body.path, c.bb, "ownership primitive %s applied to shared-origin memory (bitwise copy-out / drop of data "
+                                  "the shared cache still owns)" % n, c.loc))
         writes = (m is None and not (c.trait and c.user_kind)) or (m is not None and m.get("writes"))
         if writes:
             for i, a in enumerate(t["args"]):
